@@ -463,20 +463,24 @@ func genPeerState(t *rapid.T, e *consEnv, p *hpeer) string {
 
 func TestHostileConsensus(t *testing.T) {
 	rapid.Check(t, func(t *rapid.T) {
+		newCase()
 		// mostly 4 validators (1-word bit arrays); sometimes 70 (2 words), so that peer arrays can also have FEWER words
 		nVals := rapid.SampledFrom([]int{4, 4, 4, 4, 4, 4, 4, 70}).Draw(t, "nvals")
 		nodeVal := rapid.SampledFrom([]int{-1, 0, 1, 2, 3}).Draw(t, "nodeval")
 		nBlocks := rapid.IntRange(1, 3).Draw(t, "blocks")
 		e := newConsEnv(t, nVals, nBlocks, nodeVal, 1)
 		defer func() {
-			e.close()
-			checkNoLeak(t, e.before, "consensus")
+			e.closeChecked()
+			if !wedged() {
+				checkNoLeak(t, e.before, "consensus")
+			}
 		}()
 		state := rapid.SampledFrom(nodeStates).Draw(t, "nodestate")
 		e.drive(state)
 
 		p := newPeer(rapid.Bool().Draw(t, "outbound"))
-		ps := e.addPeer(p)
+		var ps *consensus.PeerState
+		must(t, "consensus: InitPeer+AddPeer for a new connection (Switch.addPeer)", func() { ps = e.addPeer(p) })
 		pkind := genPeerState(t, e, p)
 		g := &consGen{t: t, e: e}
 		g.prs = func() (int64, int32, int32) {
@@ -491,7 +495,7 @@ func TestHostileConsensus(t *testing.T) {
 		for i := 0; i < n; i++ {
 			m := g.gen()
 			kinds = append(kinds, m.kind)
-			before := e.ownState()
+			before := e.ownStateChecked()
 			o := deliver(t, e.sw, e.conR, m.ch, p, m.b, m.kind)
 			okAlive := e.barrier()
 			cls := outcomeClass(o)
@@ -518,7 +522,7 @@ func TestHostileConsensus(t *testing.T) {
 				}
 			}
 			// (3) the node's own consensus state is not changed by input that is not a validator's
-			after := e.ownState()
+			after := e.ownStateChecked()
 			if m.validInput {
 				if after == before && !o.dropped {
 					t.Fatalf("a correctly signed new prevote had no effect on the node's vote set (harness sanity)\n%s", before)
@@ -546,9 +550,14 @@ func TestHostileConsensus(t *testing.T) {
 				e.awaitPeerRoutines(p)
 				// the peer reconnects under a new identity
 				p = newPeer(false)
-				ps = e.addPeer(p)
+				must(t, "consensus: InitPeer+AddPeer for a new connection (Switch.addPeer)", func() { ps = e.addPeer(p) })
 				pkind = genPeerState(t, e, p)
 			}
+		}
+		// liveness: whatever was sent, the node still serves a well-behaved newcomer and can be inspected
+		e.probe(ps)
+		if pn := e.routinePanic(); pn != "" {
+			t.Fatalf("PROCESS DEATH: a per-peer routine panicked while a well-behaved peer was served after %v\n%s", kinds, pn)
 		}
 		nontrivial := hostileValid > 0
 		lib.Case("TestHostileConsensus", lib.FP(state, pkind, nodeVal, nVals, kinds), nontrivial, "node:"+state, "peer:"+pkind, fmt.Sprintf("validators:%d", nVals))
